@@ -240,3 +240,38 @@ for _cls in ("ARMAttributesSection", "RISCVAttributesSection"):
     @contract("elftools/elf/sections.py", "%s.__init__" % _cls, props=["C01", "C20"])
     class _actor:
         inline = True
+
+
+# ---------------------------------------------------------------- lookups through the name map
+NameMapFile = ELFFileT(_section_name_map=DictOf(Nat), _section_header_stringtable=Opt(SectionT('StringTableSection')))
+A_NAME = OneOf('.symtab', '')       # lookups are by constant key; the empty name is the null section's
+
+
+@contract("elftools/elf/elffile.py", "ELFFile.get_section_index", props=["C01"])
+class get_section_index:
+    """the index the (already built) name map holds for the name, None for an unknown name; index 0 is an index"""
+    params = dict(self=NameMapFile, section_name=A_NAME)
+    returns = Opt(Nat)
+    ensures = ["(result is None) == (section_name not in self._section_name_map)",
+               "result is None or result == self._section_name_map[section_name]"]
+
+
+@contract("elftools/elf/elffile.py", "ELFFile.has_section", props=["C01", "C11"])
+class has_section:
+    params = dict(self=NameMapFile, section_name=A_NAME)
+    returns = Bool
+    ensures = ["result == (section_name in self._section_name_map)"]
+
+
+@contract("elftools/elf/elffile.py", "ELFFile.get_section_by_name", props=["C01"])
+class get_section_by_name:
+    """the section at the index the name map holds for the name -- also when that index is 0 -- and None
+    exactly for unknown names"""
+    params = dict(self=NameMapFile, name=A_NAME)
+    requires = INV + ["name not in self._section_name_map or self.header.e_shoff + self._section_name_map[name] * self.header.e_shentsize"
+                      " <= self.stream_len"]      # indices in the map come from the enumeration of existing headers
+    returns = Opt(Obj('Section', header=ShdrT, name=Str))
+    ensures = ["(result is None) == (name not in self._section_name_map)",
+               "result is None or result.header == P('Elf_Shdr', self.stream.B, self.header.e_shoff"
+               " + self._section_name_map[name] * self.header.e_shentsize)"]
+    may_raise = ["ELFError", "OverflowError", "UnicodeDecodeError"]
